@@ -115,11 +115,14 @@ def stepLine (d : D) (line : String) : D × List String :=
     | "replsplit" :: old :: fp :: e :: ns :: _ =>
       match parseOld old, parseCert fp e ns with
       | some old, some c =>
-        -- the state between `add_certificate(new)` and `remove_certificate(old)`
-        let mid := if old = some c.fp then d.s else add d.s c
-        let r := step d.s (.replace old c)
-        if r.2 = Out.dead then ({ d with s := r.1 }, ["panic"])
-        else ({ d with s := r.1 }, [s!"{outStr r.2} | {dump d mid} || {dump d r.1}"])
+        match prepare c with
+        | none => doOp d (.replace old c)
+        | some c' =>
+          -- the state between `add_certificate(new)` and `remove_certificate(old)`
+          let mid := if old = some c'.fp then d.s else add d.s c'
+          let r := step d.s (.replace old c)
+          if r.2 = Out.dead then ({ d with s := r.1 }, ["panic"])
+          else ({ d with s := r.1 }, [s!"{outStr r.2} | {dump d mid} || {dump d r.1}"])
       | _, _ => (d, ["bad-op"])
     | ["route", sni, a] =>
       let sni? : Option (Option (List Nat)) := if sni = "none" then some none else (hexToBytes sni).map some
